@@ -19,7 +19,7 @@ def check(m):
     if not gate:
         return {"ok": k == "ret" and not got and not warns, "outcome": eff, "expected": "no effect"}
     if spec.model_code(m) not in BY_CODE:
-        return {"ok": k == "ret" and not got and warns == [WARNING], "outcome": eff, "expected": "one warning, no device, no exception"}
+        return {"ok": k == "ret" and not got and len(warns) == 1 and "unknown" in warns[0].lower(), "outcome": eff, "expected": "one warning, no device, no exception"}
     return {"ok": True, "outcome": eff, "skipped": "known model: C05"}
 
 
